@@ -20,6 +20,10 @@ tie:   2-4 real tasks enter/leave guarded sections through Cache.lock, @cache.lo
        without SET_LOCK; the model is told every backend's health and reads the two inputs of an attempt (SET_LOCK enabled, probe
        answered) off the backend that OWNS the key; a section entered without the lock is legitimate only when that backend has
        SET_LOCK disabled ("no locking", fix 9f42eb2) or does not answer the probe.
+       Facade details: user middlewares of cashews/helpers.py (memory_limit windows around the 85-byte token, add_prefix,
+       all_keys_lower) installed with setup(middlewares=...) must not change the protocol; locked async generators are consumed by
+       draining, aclose(), aclosing, or are dropped, with consumer-side pauses (release at the yield point); ttls are written as
+       timedelta (with fractions of a second) / int / strings and the backend must receive the denoted duration.
 """
 from __future__ import annotations
 
@@ -64,7 +68,7 @@ TRUSTED = [
 
 PARTIAL = ("health of the backends is configured before the tasks start (disable/enable while tasks run is context-local: C17); "
            "the model cannot exhibit: a second cancellation delivered inside the `finally: unlock` (possible only on a "
-           "backend whose unlock suspends; not on Memory), generators abandoned without aclose(), lock keys evicted "
+           "backend whose unlock suspends; not on Memory), lock keys evicted "
            "by capacity pressure, uuid collisions, non-dyadic ttls; more than 4 tasks / 2 keys are not sampled; a generated program "
            "that deadlocks (circular wait under leases that never lapse) is not judged for termination")
 
@@ -114,6 +118,7 @@ class Analysis:
         lock: dict[str, tuple] = {}          # spec lock state: key -> (identifier, deadline or None)
         bodies: dict[int, dict] = {}         # sections whose body is executing
         how_of: dict[int, str] = {}
+        closed_gens: set[int] = set()        # generator sections whose lock was released while suspended at a yield
         now = 0
         version = 0
         last_fail: dict[str, tuple] = {}
@@ -180,6 +185,10 @@ class Analysis:
         # the backend that owns the TEXT "LOCK" (defect D43: the probe `ping(b"LOCK")` was routed to it, not to the key's owner)
         text_owner = lockrun.owner_prefix("LOCK", backends)
 
+        for spec in self.case.get("mw") or []:
+            self.tags.add("helper_middleware_" + spec[0])
+            if spec[0] == "memory_limit" and (spec[1] > 85 or (spec[2] and spec[2] < 85)):
+                self.tags.add("memory_limit_window_excludes_the_lock_token")
         for b in backends:
             if health[b["p"]] != (True, True):
                 emit(f"backend {b['p']} {int(health[b['p']][0])} {int(health[b['p']][1])}", "U")
@@ -253,6 +262,15 @@ class Analysis:
                 a = acts.get(ident)
                 if a is None:
                     a = new_activation(ident, sec, si)
+                    want = None if si["ttl"] is None else si["ttl"] * 0.125
+                    if e.get("ttl") != want and not (e.get("ttl") is None and want is None):
+                        self.problem("correspondence", "ttl_lowering",
+                                     f"lock ttl written as {si['ttl'] is not None and lockrun.memhist.spell(si['ttl'], si.get('form') or 'f')!r} "
+                                     f"({si['ttl']} ticks = {want} s) reached the backend as expire={e.get('ttl')!r}")
+                    if si.get("form") and si["form"] != "f":
+                        self.tags.add("ttl_spelled_" + si["form"])
+                        if si["ttl"] is not None and si["ttl"] % 8:
+                            self.tags.add("ttl_timedelta_with_fraction_of_a_second")
                 down = i in unanswered
                 if e["res"]:
                     out = "A"
@@ -271,6 +289,8 @@ class Analysis:
                         a["unguarded"] = "D"     # lock() yields without the lock: "backend down"
                         a["pinged"] = pinged.get(i, [])
                     self.tags.add("contended_attempt")
+                    if "memory_limit_window_excludes_the_lock_token" in self.tags:
+                        self.tags.add("contended_attempt_behind_memory_limit_excluding_the_token")
                     if in_tx:
                         self.tags.add("contended_attempt_inside_transaction")
                     holder = acts.get((live(key) or (None,))[0])
@@ -325,7 +345,15 @@ class Analysis:
                 if a is not None:
                     how = how_of.get(a["sec"], "n")
                     if a["sec"] in bodies:
-                        self.problem("correspondence", "unlock_before_body_end", "unlock issued while the body is still running")
+                        if bodies[a["sec"]].get("at_yield"):
+                            # a @locked async generator suspended at its yield point whose consumer stopped iterating
+                            # (aclose / aclosing / finalisation): the section ends here, the body only runs its clean-up
+                            bodies.pop(a["sec"])
+                            how_of.setdefault(a["sec"], "g")
+                            how = "g"
+                            closed_gens.add(a["sec"])
+                        else:
+                            self.problem("correspondence", "unlock_before_body_end", "unlock issued while the body is still running")
                     if a["acq"] is None:
                         self.problem("correspondence", "unlock_without_lock", "unlock by a lock() call that never acquired")
                     within = a["acq"] is not None and not a["unlocked"] and (a.get("dl") is None or now < a["dl"])
@@ -345,7 +373,7 @@ class Analysis:
                         if cur is not None:
                             self.tags.add("late_unlock_leaves_next_holder_alone")
                     a["unlocked"] = True
-                    self.tags.add({"n": "exit_normal", "e": "exit_exception", "c": "exit_cancelled"}[how])
+                    self.tags.add({"n": "exit_normal", "e": "exit_exception", "c": "exit_cancelled", "g": "exit_generator_closed_by_consumer"}[how])
                     emit(f"leave {a['id']} {how}", "rT" if e["res"] else "rF")
                 else:
                     if isinstance(ident, str) and ident.startswith("alien-"):
@@ -457,7 +485,16 @@ class Analysis:
                 self.check_occupancy(bodies, acts, now)
             elif kind == "body_exit":
                 bodies.pop(e["sec"], None)
-                how_of[e["sec"]] = e["how"]
+                how_of.setdefault(e["sec"], e["how"]) if e["sec"] in closed_gens else how_of.__setitem__(e["sec"], e["how"])
+            elif kind == "gen_yield":
+                if e["sec"] in bodies:
+                    bodies[e["sec"]]["at_yield"] = True
+            elif kind == "gen_resume":
+                if e["sec"] in bodies:
+                    bodies[e["sec"]]["at_yield"] = False
+                elif e["sec"] in closed_gens:
+                    self.problem("property", "body_runs_after_release",
+                                 f"the body of the locked generator of section {e['sec']} was resumed after its lock had been released")
             elif kind == "outcome":
                 sec = e["sec"]
                 a = by_sec.get(sec)
@@ -604,7 +641,38 @@ def verdict(an: Analysis, answers):
 # generators
 # ------------------------------------------------------------------------------------------------------
 
-TTLS = [2, 4, 8, 8, 16, None]
+TTLS = [2, 4, 8, 8, 16, None, 12, 20]
+WHOLE_FORMS = ["i", "s", "ss", "sn", "s4", "sU"]
+# (min_bytes, max_bytes) of helpers.memory_limit; the lock token (a uuid4 string) measures 85 bytes
+WINDOWS = [(0, None), (100, None), (256, None), (0, 50), (0, 84), (86, None), (0, 1000), (80, 90)]
+
+
+def gen_form(rng, ttl):
+    """how the application writes the ttl: float seconds (what the harness always did), a timedelta (any number of ticks,
+    fractions of a second included), or - whole seconds only - an int / one of the string notations"""
+    if ttl is None:
+        return None
+    r = rng.random()
+    if r < 0.4:
+        return None
+    if r < 0.75 or ttl % 8:
+        return "td"
+    return rng.choice(WHOLE_FORMS)
+
+
+def gen_mw(rng):
+    """user middlewares of cashews/helpers.py installed with setup(middlewares=...)"""
+    mw = []
+    if rng.random() < 0.8:
+        lo, hi = rng.choice(WINDOWS)
+        mw.append(["memory_limit", lo, hi])
+    if rng.random() < 0.3:
+        mw.append(["add_prefix"])
+    if rng.random() < 0.3:
+        mw.append(["lower"])
+    rng.shuffle(mw)
+    return mw or [["memory_limit", 100, None]]
+
 DURS = [0, 1, 2, 4, 4, 8, 12, 20]
 
 
@@ -632,6 +700,14 @@ def gen_section(rng, nkeys, depth, outer, gated):
             sec["body"].append(["lock", gen_section(rng, nkeys, depth + 1, outer + [(key, ttl)], gated)])
     if not sec["body"] and rng.random() < 0.7:
         sec["body"].append(["sleep", rng.choice(DURS)] if not gated or rng.random() < 0.5 else ["point"])
+    form = gen_form(rng, ttl)
+    if form:
+        sec["form"] = form
+    if sec["via"] == "gen" and sec["body"] and rng.random() < 0.6:
+        # a consumer that does not drain the generator: every body step is followed by one chunk
+        sec["consume"] = [rng.choice(["aclose", "aclosing", "abandon"]), rng.randrange(1, len(sec["body"]) + 1)]
+        if rng.random() < 0.4:
+            sec["between"] = [["sleep", rng.choice([0, 1, 2, 4])] if not gated or rng.random() < 0.5 else ["point"]]
     return sec
 
 
@@ -692,6 +768,8 @@ def gen_case(rng, i) -> dict:
     case = {"mode": "gated" if gated else "timed", "cfg": CFGS[(i // 2) % len(CFGS)],
             "tasks": [gen_task(rng, nkeys, gated) for _ in range(ntasks)]}
     break_cycles(case)
+    if lockrun.CONFIGS[case["cfg"]]["facade"] and rng.random() < 0.3:
+        case["mw"] = gen_mw(rng)
     if gated:
         sched = []
         for _ in range(rng.randrange(10, 60)):
@@ -789,6 +867,8 @@ def _schedule(rng, ntasks):
 
 def _finish_case(rng, case, gated, ntasks):
     break_cycles(case)
+    if rng.random() < 0.2:
+        case["mw"] = gen_mw(rng)
     if gated:
         case["schedule"] = _schedule(rng, ntasks)
     else:
@@ -943,10 +1023,11 @@ def gen_purge_race(rng, i) -> dict:
 
 
 # small programs whose schedules are enumerated exhaustively under the gate scheduler
-def sec(key, ttl, wait, body, via="cm", ci=0, end="n", be=0):
+def sec(key, ttl, wait, body, via="cm", ci=0, end="n", be=0, **extra):
     d = {"via": via, "key": key, "ttl": ttl, "wait": wait, "ci": ci, "end": end, "body": body}
     if be:
         d["be"] = be
+    d.update(extra)          # form= (ttl spelling), consume= / between= (consumer of a locked async generator)
     return ["lock", d]
 
 
@@ -974,9 +1055,14 @@ EXHAUSTIVE = [
                                                                                     {"p": 1, "off": []}],
                                                    "tasks": [[sec(0, 8, True, [["point"]], be=1, via="deco")],
                                                              [sec(0, 8, True, [["point"]], be=1)]]}),
+    ("memory_limit_window_excludes_the_token", {"cfg": "facade", "mw": [["memory_limit", 256, None], ["add_prefix"]],
+                                                "tasks": [[sec(0, 8, True, [["point"]])], [sec(0, 8, False, [], via="deco")]]}),
+    ("generator_consumer_stops_early", {"cfg": "facade", "tasks": [[sec(0, 8, True, [["point"], ["point"]], via="gen",
+                                                                        consume=["aclose", 1], form="td")],
+                                                                   [sec(0, 8, True, [], ci=1)]]}),
     ("three_tasks_one_key", {"cfg": "raw", "tasks": [[sec(0, 4, True, [])], [sec(0, 4, True, [])], [sec(0, 4, False, [])]]}),
 ]
-NQUICK = 11      # the first NQUICK programs are enumerated in the quick tier as well
+NQUICK = 13      # the first NQUICK programs are enumerated in the quick tier as well
 
 
 def enumerate_all(case: dict, limit: int):
@@ -1140,6 +1226,29 @@ def shrink(case: dict, want: tuple) -> dict:
                 trial = {k: v for k, v in cur.items() if k != "backends"}
                 if still_fails(trial, want):
                     cur = trial
+        if cur.get("mw"):
+            for m in list(cur["mw"]):
+                trial = dict(cur, mw=[x for x in cur["mw"] if x is not m])
+                if not trial["mw"]:
+                    del trial["mw"]
+                if still_fails(trial, want):
+                    cur = trial
+        for path in list(_step_lists(cur)):        # plain ttl spelling, draining consumers, wherever the finding survives
+            try:
+                steps = _get_list(cur, path)
+            except (IndexError, KeyError, TypeError):
+                continue
+            for i, st in enumerate(steps):
+                if st[0] != "lock":
+                    continue
+                for field in ("between", "consume", "form"):
+                    if field in st[1]:
+                        new_steps = json.loads(json.dumps(steps))
+                        del new_steps[i][1][field]
+                        trial = _with_list(cur, path, new_steps)
+                        if still_fails(trial, want):
+                            cur = trial
+                            steps = _get_list(cur, path)
         if cur.get("cancels"):
             for c in list(cur["cancels"]):
                 trial = dict(cur, cancels=[x for x in cur["cancels"] if x != c])
@@ -1150,7 +1259,7 @@ def shrink(case: dict, want: tuple) -> dict:
                 cur = dict(cur, schedule=[])
             elif len(cur["schedule"]) > 1:
                 cur = dict(cur, schedule=ddmin(cur["schedule"], lambda s: still_fails(dict(cur, schedule=s), want)))
-        if cur["cfg"] != "raw" and "backends" not in cur and not has_tx(cur) and still_fails(dict(cur, cfg="raw"), want):
+        if cur["cfg"] != "raw" and "backends" not in cur and not cur.get("mw") and not has_tx(cur) and still_fails(dict(cur, cfg="raw"), want):
             cur = dict(cur, cfg="raw")
         if canonical(cur) == before:
             break
@@ -1208,7 +1317,7 @@ def canonical(case: dict) -> str:
 
 def run(chk: Check) -> int:
     proof = proof_stage(PROP, "driver_c06", chk.thorough) if not getattr(chk, "skip_proof", False) else None
-    n = chk.budget(2500, 24000)
+    n = chk.budget(2500, 20000)
     enum_limit = chk.budget(400, 6000)
     found = 0
     found_property = False
@@ -1298,14 +1407,14 @@ def run(chk: Check) -> int:
         case = gen_case(chk.rng, i)
         submit(case, run_impl(case), f"gen:{i}")
     flush()
-    ntx = chk.budget(500, 3500)
+    ntx = chk.budget(400, 2500)
     for i in range(ntx):
         if found >= 3:
             break
         case = gen_tx_case(chk.rng, i)
         submit(case, run_impl(case), f"tx:{i}")
     flush()
-    nmulti = chk.budget(500, 3500)
+    nmulti = chk.budget(400, 2500)
     for i in range(nmulti):
         if found >= 3:
             break
@@ -1379,6 +1488,8 @@ INTERESTING = {
     "unguarded_entry_set_lock_disabled", "unguarded_entry_owner_does_not_answer_probe", "two_bodies_overlap_no_locking",
     "contended_attempt_healthy_prefixed_owner_default_backend_absent_or_silent",
     "contended_attempt_prefixed_owner_silent_default_backend_healthy",
+    "exit_generator_closed_by_consumer", "ttl_timedelta_with_fraction_of_a_second",
+    "contended_attempt_behind_memory_limit_excluding_the_token",
 }
 
 
